@@ -71,6 +71,49 @@ Theorem C05_precompiled_equals_source :
 Proof. exact gen_precompiled_equals_source. Qed.
 Print Assumptions C05_precompiled_equals_source.
 
+(* Load histories. ANY sequence of loads into one engine, each file taken from source (Load) or from a precompiled value
+   shared by every LoadFromIR of that file (a package-level variable: any number of loads, any number of engines), leaves
+   the engine -- and tells the caller -- what the all-source history does, and leaves the precompiled values untouched.
+   About the real code this uses: the regenerated tails of Load and LoadFromIR are the same Gallina term
+   (C05_commit_paths_agree: same merge order), and the loader does not write through the pointer it is handed
+   (stated as `snd (load_file pk f) = f`; backed by C05_no_ir_write_sites -- the regenerated list of statements of packages
+   ruleguard and ruleguard/ir that may write into an IR value they did not build is empty -- and by reflect.DeepEqual against
+   a fresh evaluation of the literal after every LoadFromIR of the run). *)
+Theorem C05_commit_paths_agree :
+  forall (ruleset err : Type) (m : list ruleset -> ruleset + err) (e : option ruleset) (r : ruleset),
+    gen_commit_load ruleset err m e r = gen_commit_ir ruleset err m e r.
+Proof. exact gen_commit_paths_agree. Qed.
+Print Assumptions C05_commit_paths_agree.
+
+Theorem C05_no_ir_write_sites : gen_ir_write_sites = [].
+Proof. exact gen_no_ir_write_sites. Qed.
+Print Assumptions C05_no_ir_write_sites.
+
+Theorem C05_mixed_history_equals_source_history :
+  forall (src irfile pkginfo ruleset err : Type) (convert : src -> irfile * pkginfo + err)
+         (load_file : option pkginfo -> irfile -> (ruleset + err) * irfile) (merge : list ruleset -> ruleset + err),
+    (forall pk f, snd (load_file pk f) = f) ->
+    (forall p f, fst (load_file (Some p) f) = fst (load_file None f)) ->
+    forall (srcs : nat -> option src) (st : lstate irfile ruleset) (h : list (lstep src)),
+      store_ok src irfile pkginfo ruleset err convert load_file srcs (l_store irfile ruleset st) ->
+      (forall k, In (FromIR src k) h -> nth_error (l_store irfile ruleset st) k <> None) ->
+      lrun src irfile pkginfo ruleset err convert load_file merge (gen_commit_load ruleset err) (gen_commit_ir ruleset err) st
+           (map (to_source src srcs) h)
+      = lrun src irfile pkginfo ruleset err convert load_file merge (gen_commit_load ruleset err) (gen_commit_ir ruleset err) st h.
+Proof. exact gen_mixed_history_equals_source_history. Qed.
+Print Assumptions C05_mixed_history_equals_source_history.
+
+Theorem C05_history_leaves_precompiled_values :
+  forall (src irfile pkginfo ruleset err : Type) (convert : src -> irfile * pkginfo + err)
+         (load_file : option pkginfo -> irfile -> (ruleset + err) * irfile) (merge : list ruleset -> ruleset + err)
+         (commit_src commit_ir : (list ruleset -> ruleset + err) -> option ruleset -> ruleset -> option ruleset + err),
+    (forall pk f, snd (load_file pk f) = f) ->
+    forall (st : lstate irfile ruleset) (h : list (lstep src)),
+      l_store irfile ruleset (fst (lrun src irfile pkginfo ruleset err convert load_file merge commit_src commit_ir st h))
+      = l_store irfile ruleset st.
+Proof. exact history_leaves_precompiled_values. Qed.
+Print Assumptions C05_history_leaves_precompiled_values.
+
 (* non-vacuity *)
 Definition ex_fe : val :=
   VStruct "FilterExpr" [VInt 7; VOp 2; VStr [97]; VNil;
@@ -87,3 +130,19 @@ Example c05_file : has_ty gen_env ex_file (TNamed "File") = true
   /\ gen_ev (TNamed "File") false (gen_print_file ex_file)
      = Some (VStruct "File" [VStr [103]; VSlice None; VSlice (Some []); VSlice (Some [VStruct "BundleImport" [VInt 9; VStr [98]; VStr [112]]])]).
 Proof. split; vm_compute; reflexivity. Qed.
+
+(* a history over a toy loader: rule sets are lists of rule names, merging concatenates in argument order; the second load
+   of the shared value 0 after a source load gives the rules in load order, as the all-source history does *)
+Definition ex_convert (s : nat) : list nat * unit + unit := inl ([s; s + 1]%nat, tt).
+Definition ex_load_file (_ : option unit) (f : list nat) : (list nat + unit) * list nat := (inl f, f).
+Definition ex_merge (l : list (list nat)) : list nat + unit := inl (List.concat l).
+Example c05_history :
+  l_eng _ _ (fst (lrun nat (list nat) unit (list nat) unit ex_convert ex_load_file ex_merge (gen_commit_load _ _) (gen_commit_ir _ _)
+                      (mkLState _ _ None [[10; 11]%nat]) [FromSource nat 5%nat; FromIR nat 0%nat; FromIR nat 0%nat]))
+  = Some [5; 6; 10; 11; 10; 11]%nat
+  /\ store_ok nat (list nat) unit (list nat) unit ex_convert ex_load_file (fun k => match k with O => Some 10%nat | _ => None end) [[10; 11]%nat].
+Proof.
+  split; [vm_compute; reflexivity|].
+  intros [|k] f' H; [|destruct k; discriminate H]. cbn in H. inversion H; subst f'.
+  exists 10%nat. split; [reflexivity|]. exists [10; 11]%nat, tt. split; reflexivity.
+Qed.
